@@ -45,6 +45,11 @@ CHECKS['C13'] = dict(cat='model_checking', ref='5/C13',
     note='A break exactly at the end of the body is not part-way and is not generated; what an aborted response delivered before the cut is not compared (server buffering).',
     tech='TLA+ streaming state machine; TLC exhaustive scenario enumeration; replay on real proxy; TLC evaluation of formulas on observations')
 
+CHECKS['C09'] = dict(cat='model_checking', ref='5/C09',
+    text='spec/Store.tla models persisting an assignment as file-system steps (truncate-in-place or temp+sync+rename, selected by a constant pinned to the tree) with the write cut at any block, followed by two starts; TLC explores all pairs from 6 assignments (empty, one target, labels/job names needing JSON escaping and a max-uint64 hash, 60 targets, moved between jobs, other state/estimates) plus "no store yet" and checks C09 on the model; every terminal state is replayed on the real TargetsManager: a child process runs the real UpdateTargets under RLIMIT_FSIZE=byte offset (quick: 3 offsets per file, thorough: every byte offset of files < 1 kB and 150 offsets of the 19 kB file), then two fresh Load() starts are named by comparison with a and b (hash, labels, state, estimates per job, idle-since, status map); TLC (StoreEval) evaluates C09 on the real outcomes.',
+    note='The file-size limit leaves exactly N bytes written (kill by SIGXFSZ or EFBIG write error give the same disk state); operating-system crashes (unsynced data) are out of scope.',
+    tech='TLA+ protocol model with crash points; TLC enumeration of cases; byte-offset fault injection on the real code; TLC evaluation of formulas on observations')
+
 ALL = ['C%02d' % i for i in range(1, 21)]
 
 
